@@ -303,6 +303,9 @@ pub struct Outcome {
 /// Execute the script with the k-th device call of the target failing (k = 0: no fault).
 pub fn execute(base: &Store, script: &Script, k: u64, budget_calls: u64) -> Outcome {
     let dev = MemDev::new(base.clone());
+    if script.vol.short_io != 0 {
+        dev.with(|d| d.short_io = 0x9E37_79B9_7F4A_7C15u64.wrapping_mul(script.vol.short_io as u64) | 1);
+    }
     let clock = Clock::new(700_000_000_000);
     let mut ex = Exec { dev: dev.handle(), clock, sess: None, recs: Vec::new() };
     for st in &script.setup {
@@ -476,6 +479,10 @@ pub fn volumes(tier: Tier) -> Vec<VolCfg> {
     let mut f32u = VolCfg::from_preset(12);
     f32u.fsinfo_unknown = true;
     v.push(f32u);
+    // a storage that makes short transfers: every transfer becomes several device calls, each a fault position
+    let mut sh = VolCfg::from_preset(1);
+    sh.short_io = 7;
+    v.push(sh);
     if tier == Tier::Thorough {
         v.push(VolCfg::from_preset(3));
         v.push(VolCfg::from_preset(9));
